@@ -13,7 +13,10 @@
    request:  setup STEPS CUR I W M CAP QUANTIS LM1 ACCEPT_ALL SEED EE SECS      (the route into setup_config)
      STEPS simulation.steps integer
      CUR   [current] table  N (absent: fresh input file) | cstep:p   p = 1 if every active path has its traj.txt, else 0
-   answer:   NONE (setup_config returns None) | <result> <validb c'> <c', 10 fields>   where setup_from = Some (c', result) *)
+   answer:   NONE (setup_config returns None) | <result> <validb c'> <c', 10 fields>   where setup_from = Some (c', result)
+   requests  cfg0 ... / setup0 ...: the same with the code BEFORE proposed_fixes/C18_short_ensemble_engines.diff
+     (check_config_g false / setup_from_g false: no length test on ensemble_engines); used by the harness only when
+     its probe finds that the tree under test lacks that repair *)
 let opt_of f none s = if s = none then None else Some (f s)
 let string_of_opt f none o = match o with None -> none | Some x -> f x
 
@@ -52,6 +55,7 @@ let string_of_err = function
   | EFewIntf -> "FewIntf" | ELm1 -> "Lm1" | EQuantisLm1 -> "QuantisLm1" | EWorkers -> "Workers"
   | EUnsorted -> "Unsorted" | EDuplicate -> "Duplicate" | EMoves -> "Moves"
   | ECapHigh -> "CapHigh" | ECapLow -> "CapLow" | ECapWf i -> "CapWf" ^ string_of_nat i
+  | EEngineListShort -> "EngineListShort"
   | EEngineUndef e -> "EngineUndef" ^ string_of_z e | EGmxDup -> "GmxDup"
 let string_of_result = function
   | Ok -> "OK"
@@ -79,20 +83,28 @@ let current_of_string s =
     | [k; p] -> Some { cstep = z_of_string k; paths_present = bool_of_string_ p }
     | _ -> failwith ("bad current " ^ s)
 
+let handle_cfg fixed i w m cp qu l aa sd ee secs =
+  let c = config_of i w m cp qu l aa sd ee secs in
+  let n = normalise c in
+  String.concat " "
+    [string_of_result (check_config_g fixed c); string_of_bool_ (validb c);
+     string_of_result (check_config_g fixed n); string_of_bool_ (validb n); string_of_config n]
+
+let handle_setup fixed steps cur i w m cp qu l aa sd ee secs =
+  let c = config_of i w m cp qu l aa sd ee secs in
+  (match setup_from_g fixed (z_of_string steps) (current_of_string cur) c with
+   | None -> "NONE"
+   | Some (n, r) ->
+     String.concat " " [string_of_result r; string_of_bool_ (validb n); string_of_config n])
+
 let handle toks =
   match toks with
-  | ["cfg"; i; w; m; cp; qu; l; aa; sd; ee; secs] ->
-    let c = config_of i w m cp qu l aa sd ee secs in
-    let n = normalise c in
-    String.concat " "
-      [string_of_result (check_config c); string_of_bool_ (validb c);
-       string_of_result (check_config n); string_of_bool_ (validb n); string_of_config n]
+  | ["cfg"; i; w; m; cp; qu; l; aa; sd; ee; secs] -> handle_cfg true i w m cp qu l aa sd ee secs
+  | ["cfg0"; i; w; m; cp; qu; l; aa; sd; ee; secs] -> handle_cfg false i w m cp qu l aa sd ee secs
   | ["setup"; steps; cur; i; w; m; cp; qu; l; aa; sd; ee; secs] ->
-    let c = config_of i w m cp qu l aa sd ee secs in
-    (match setup_from (z_of_string steps) (current_of_string cur) c with
-     | None -> "NONE"
-     | Some (n, r) ->
-       String.concat " " [string_of_result r; string_of_bool_ (validb n); string_of_config n])
+    handle_setup true steps cur i w m cp qu l aa sd ee secs
+  | ["setup0"; steps; cur; i; w; m; cp; qu; l; aa; sd; ee; secs] ->
+    handle_setup false steps cur i w m cp qu l aa sd ee secs
   | _ -> "ERR bad command"
 
 let () = main_loop handle
